@@ -146,7 +146,10 @@ def check(run):
     run.check(len(rets) == 1 and q.unparse(rets[0].value) == 'self._interpreter.time', r, sc.short, 'time = self._interpreter.time', 'returns %s' % [q.unparse(x.value) for x in rets], sc.node)
     si = run.fn('SynchronizedClock.__init__')
     st_ = [n for n in q.walk(si.node) if isinstance(n, ast.Assign) and q.unparse(n.targets[0]) == 'self._interpreter']
-    run.check(len(st_) == 1 and obj_is_name(st_[0].value, q.param_names(si.node)[1]), r, si.short, 'follows the interpreter it was constructed with', 'differs', si.node)
+    ip_ = q.param_names(si.node)[1]
+    rebound = [n for n in q.walk(si.node) if isinstance(n, ast.Name) and n.id == ip_ and isinstance(n.ctx, (ast.Store, ast.Del))]
+    run.check(len(st_) == 1 and obj_is_name(st_[0].value, ip_) and not rebound, r, si.short, 'follows the interpreter it was constructed with',
+              'the stored interpreter is not (always) the constructor argument' if rebound else 'differs', rebound[0] if rebound else si.node)
     tp = run.fn('Interpreter.time')
     rets = [n for n in q.walk(tp.node, False) if isinstance(n, ast.Return)]
     run.check(len(rets) == 1 and q.unparse(rets[0].value) == 'self._time', r, tp.short, 'Interpreter.time is the frozen step time', 'differs', tp.node)
